@@ -599,6 +599,19 @@ impl Exec for VolExec {
                         Err(e) => verr(&e),
                     }
                 }
+                ("write_to_bad_fd", Cur::Mem(Src::Slice(s))) => {
+                    // a descriptor that cannot be written to: every write fails with EBADF
+                    let (a, c) = (g("addr"), g("count"));
+                    if a <= s.len() && (s.len() - a).min(c) == 0 {
+                        skip()
+                    } else {
+                        let mut f = std::fs::File::open("/dev/null").expect("harness: /dev/null");
+                        match s.write_volatile_to(a, &mut f, c) {
+                            Ok(n) => json!({"k": "ok", "n": n}),
+                            Err(e) => verr(&e),
+                        }
+                    }
+                }
                 ("read_from_bad_fd", Cur::Mem(Src::Slice(s))) => {
                     // a descriptor that cannot be read from: every read fails with EBADF
                     let mut f = std::fs::OpenOptions::new().write(true).open("/dev/null").expect("harness: /dev/null");
